@@ -34,7 +34,7 @@ def run(tier):
     rep.functions.update(["gtwrap.interface_parser.Module.rule (live object graph, %d nodes)" % len(G.nodes),
                           "per-node skipWhitespace / ignoreExprs / callPreparse attributes", "Module.parseString (replay)"])
     rep.assumptions = [
-        "re-layout domain: a default value / initialiser is one atom token followed by , ; or ) with no comment between atom and delimiter (verbatim region)",
+        "re-layout domain: a default value / initialiser is one atom token followed by , ; or ) with no comment GLUED to the atom (`5/*c*/` is lexed as default text: verbatim region); a comment after whitespace is inside the domain",
         "a brace list after = occurs only in a template header",
         "an include header is one path token glued to its < > (CharsNotIn keeps whitespace/comments as header text)",
         "`unsigned char`, `enum class`, `enum struct`, `#include`, `std::` are single tokens as tokens.py defines them",
